@@ -98,12 +98,12 @@ def mc_instance(name, desc, params, opts):
             "monitor": {"module": "P_C09", "params": params},
             # presses that are never accounted for (a swallowed key is flagged at the next idle point) are not piled up
             "constraint": "PendBound",
-            "extra_defs": "PendBound == mon.err # \"\" \\/ Len(mon.pend) <= %d" % (opts.get("qmax", 3) + 1)}
+            "extra_defs": "PendBound == mon.err # \"\" \\/ (Len(mon.pend) <= %d)" % (opts.get("qmax", 3) + 1)}
     if params["ver"] == 2:
         inst["universe"] = keys + [0]          # TRIGGER_TAPHOLD_COORD (0, 0) is dequeued like a key
         inst["view"] = "<<CvCanonK(K), phys, mon>>"
         inst["extra_guard"] = "/\\ Len(K.L.chv2.q) + Len(K.L.queue) < QMax"
-        inst["extra_defs"] += " /\\ Len(K.L.chv2.ach) <= 3"
+        inst["extra_defs"] = inst["extra_defs"][:-1] + " /\\ Len(K.L.chv2.ach) <= 3)"
     return inst, kbd, keys
 
 
